@@ -86,15 +86,28 @@ def run_history(EP, RealLP, case):
 
                     def f(k=k):
                         return k * 3 + 1
-                    r = gp(f)
-                    if r is f:
+                    # what is handed to the decorator: the function, or a TEMPORARY wrapper object around it that
+                    # nobody else keeps (decorator stacking, inline profile(partial(...)))
+                    if arg == 'partial':
+                        import functools
+                        given = functools.partial(f)
+                    elif arg == 'static':
+                        given = staticmethod(f)
+                    else:
+                        given = f
+                    r = gp(given)
+                    same = r is given
+                    del given
+                    if same:
                         obs.append(['same', k])
                     else:
                         owner = None
                         for p in created + ([ext] if ext is not None else []):
                             if f in p.functions:
                                 owner = which(p) if owner is None else ['other', 'two profilers']
-                        calls_ok = (getattr(r, '__wrapped__', None) is f) and r() == k * 3 + 1
+                        call = r.__func__ if arg == 'static' else r
+                        inner = call.func if arg == 'partial' else call
+                        calls_ok = (getattr(inner, '__wrapped__', None) is f) and call() == k * 3 + 1
                         if owner is None or not calls_ok:
                             obs.append(['odd', 'not the argument, owner=%r calls_ok=%r' % (owner, calls_ok)])
                         else:
@@ -106,7 +119,8 @@ def run_history(EP, RealLP, case):
         hooks_ok = all(getattr(fn, '__self__', None) is gp and getattr(fn, '__func__', None) is EP.GlobalProfiler.show
                        and not a and not k for fn, a, k in rec.calls)
         return dict(obs=obs, enabled=gp.enabled, profile=which(gp._profile), prefix=gp.output_prefix,
-                    created=len(created), atexit=len(rec.calls), hooks_ok=hooks_ok)
+                    created=len(created), atexit=len(rec.calls), hooks_ok=hooks_ok,
+                    argv_after=list(sys.argv))       # the decision READS the command line
     finally:
         sys.argv = old_argv
         if old_env is None:
@@ -162,8 +176,9 @@ def run_show(EP, RealLP, case, tmp):
 
         def f(x):
             return x + 1
-        g = gp(f)
-        g(1)
+        if case.get('decorated', True):
+            g = gp(f)
+            g(1)
         gp.write_config.update(case['wc'])
         buf = io.StringIO()
         err = None
@@ -263,6 +278,57 @@ def run_sub_kernprof(case, tmp):
         shutil.rmtree(d, ignore_errors=True)
 
 
+OPS_SCRIPT = '''
+import sys, json
+import line_profiler
+from line_profiler import profile
+CFG = json.loads(%(cfg)r)
+sames = []
+for k, (op, arg) in enumerate(CFG['ops']):
+    if op == 'enable':
+        profile.enable() if arg is None else profile.enable(output_prefix=arg)
+    elif op == 'disable':
+        profile.disable()
+    else:
+        def f(x, k=k):
+            return x + k
+        F = profile(f)
+        F(1)
+        sames.append(F is f)
+profile.write_config.update(CFG['wc'])
+print('OBS ' + json.dumps(dict(sames=sames, impl=line_profiler.__file__, argv=sys.argv)))
+'''
+
+
+def run_sub_ops(case, tmp):
+    """a whole interpreter run of an arbitrary enable / disable / decorate history; what appears at exit?"""
+    import json
+    d = tempfile.mkdtemp(prefix='c14ops_', dir=tmp)
+    try:
+        with open(os.path.join(d, 'prog.py'), 'w') as fh:
+            fh.write(OPS_SCRIPT % dict(cfg=json.dumps(dict(ops=case['ops'], wc=case['wc']))))
+        env = dict(os.environ)
+        env.pop('LINE_PROFILE', None)
+        if case['env'] is not None:
+            env['LINE_PROFILE'] = case['env']
+        p = subprocess.run([sys.executable, 'prog.py'] + case['args'], cwd=d, env=env,
+                           stdout=subprocess.PIPE, stderr=subprocess.PIPE, text=True, timeout=120)
+        obs = None
+        for line in p.stdout.splitlines():
+            if line.startswith('OBS '):
+                obs = json.loads(line[4:])
+        names = [n for n in list_files(d) if n != 'prog.py' and not n.startswith('__pycache__')]
+        prefix = 'profile_output'
+        for op, arg in case['ops']:
+            if op == 'enable' and arg is not None:
+                prefix = arg
+        seen, ts = classify_outputs(prefix, names, p.stdout)
+        return dict(rc=p.returncode, obs=obs, seen=seen, ts=ts, prefix=prefix,
+                    traceback=('Traceback' in p.stderr or 'Exception ignored' in p.stderr), stderr=p.stderr[-400:])
+    finally:
+        shutil.rmtree(d, ignore_errors=True)
+
+
 def run_sub(case, tmp):
     import json
     d = tempfile.mkdtemp(prefix='c14sub_', dir=tmp)
@@ -302,7 +368,8 @@ def main():
     with ThreadPoolExecutor(max_workers=8) as ex:
         sub = list(ex.map(lambda c: run_sub(c, tmp), payload.get('sub', [])))
         subkp = list(ex.map(lambda c: run_sub_kernprof(c, tmp), payload.get('subkp', [])))
-    emit(dict(hist=hist, show=show, sub=sub, subkp=subkp))
+        subops = list(ex.map(lambda c: run_sub_ops(c, tmp), payload.get('subops', [])))
+    emit(dict(hist=hist, show=show, sub=sub, subkp=subkp, subops=subops))
 
 
 if __name__ == '__main__':
